@@ -26,9 +26,11 @@ fn check(id: &str, tier: Tier) -> i32 {
         "C03" => props::grouping::check(Which::C03, tier),
         "C06" => props::c06::check(tier),
         "C08" => props::c08::check(tier),
+        "C10" => props::c10::check(tier),
         "C11" => props::c11::check(tier),
         "C13" => props::c13::check(tier),
         "C14" => props::c14::check(tier),
+        "C16" => props::c16::check(tier),
         "C17" => props::c17::check(tier),
         "C18" => props::c18::check(tier),
         "C20" => props::c20::check(tier),
@@ -46,9 +48,11 @@ fn replay(id: &str, f: &Path) -> i32 {
         "C03" => props::grouping::replay(Which::C03, f),
         "C06" => props::c06::replay(f),
         "C08" => props::c08::replay(f),
+        "C10" => props::c10::replay(f),
         "C11" => props::c11::replay(f),
         "C13" => props::c13::replay(f),
         "C14" => props::c14::replay(f),
+        "C16" => props::c16::replay(f),
         "C17" => props::c17::replay(f),
         "C18" => props::c18::replay(f),
         "C20" => props::c20::replay(f),
